@@ -356,6 +356,10 @@ class Exec:
         self.models = models
         self.max_steps = max_steps
         self.hooks = {}
+        self.inc = z3.Solver()
+        self.inc_stack = []      # constraints asserted in self.inc, one scope each (kept alive here)
+        self.inc_pos = 0
+        self.use_inc = True
         self.reset([])
 
     def reset(self, prefix):
@@ -368,6 +372,7 @@ class Exec:
         self.solver_calls = 0
         self.pinned = []
         self.obligations = 0
+        self.inc_pos = 0
         self.pc = []
 
     # ---- symbolic choice
@@ -417,9 +422,13 @@ class Exec:
         if hit is not None:
             G.cache_hits += 1
             return [options[k] for k in hit]
-        sol = z3.Solver()
-        for c in rel:
-            sol.add(c)
+        if self.use_inc:
+            self.inc_sync()
+            sol = self.inc
+        else:
+            sol = z3.Solver()
+            for c in rel:
+                sol.add(c)
         remaining = list(range(len(options)))
         feas = []
         while remaining:
@@ -432,13 +441,14 @@ class Exec:
             if r == z3.unsat:
                 sol.pop(); break
             if r != z3.sat:
+                sol.pop()
                 raise Unsupported("solver unknown")
             m = sol.model()
-            sol.pop()
             hitk = None
             for k in remaining:
                 if z3.is_true(m.eval(options[k][1], model_completion=True)):
                     hitk = k; break
+            sol.pop()
             if hitk is None:
                 raise Unsupported("model does not select an option")
             feas.append(hitk); remaining.remove(hitk)
@@ -449,6 +459,25 @@ class Exec:
 
     def add_constraint(self, c):
         self.pc.append((c, self.glob.vars_of(c)))
+        if self.use_inc:
+            i = self.inc_pos
+            st = self.inc_stack
+            if i < len(st) and st[i].get_id() == c.get_id():
+                self.inc_pos = i + 1
+                return
+            if len(st) > i:
+                self.inc.pop(len(st) - i)
+                del st[i:]
+            self.inc.push()
+            self.inc.add(c)
+            st.append(c)
+            self.inc_pos = i + 1
+
+    def inc_sync(self):
+        st = self.inc_stack
+        if len(st) > self.inc_pos:
+            self.inc.pop(len(st) - self.inc_pos)
+            del st[self.inc_pos:]
 
     def simp(self, c):
         return c
@@ -475,6 +504,20 @@ class Exec:
 
     def check_sat(self, extra):
         """is pc /\ extra satisfiable?  returns model or None"""
+        if self.use_inc:
+            self.inc_sync()
+            sol = self.inc
+            sol.push()
+            sol.add(extra)
+            _t = time.time()
+            r = sol.check()
+            self.glob.solver_time += time.time() - _t; self.glob.queries += 1
+            self.solver_calls += 1
+            m = sol.model() if r == z3.sat else None
+            sol.pop()
+            if r == z3.unknown:
+                raise Unsupported("solver unknown")
+            return m
         sol = z3.Solver()
         for c in self.relevant(extra):
             sol.add(c)
